@@ -57,6 +57,8 @@ def GoT.id : GoT → Nat
 
 inductive NonFunc where
   | nil | int | ptr | struct
+  /-- a typed nil function value -/
+  | nilfunc
   deriving DecidableEq, Repr, Inhabited
 
 /-- A Go value handed to Provide / Decorate / Invoke. -/
